@@ -1121,6 +1121,14 @@ func getAllRotatedSegmentsInQuery(queryInfo *QueryInformation, sTime time.Time) 
 }
 
 func applyFilterOperatorSingleRequest(qsr *QuerySegmentRequest, allSegFileResults *segresults.SearchResults, qs *summary.QuerySummary) error {
+	// The segment may have been rotated after the segment lists were read. It is then no
+	// longer in the unrotated info, so search it as a rotated segment.
+	if qsr.sType == structs.UNROTATED_RAW_SEARCH || qsr.sType == structs.UNROTATED_PQS {
+		if !writer.IsSegKeyUnrotated(qsr.segKey) {
+			qsr.sType = structs.RAW_SEARCH
+		}
+	}
+
 	switch qsr.sType {
 	case structs.PQS:
 		return applyFilterOperatorPQSRequest(qsr, allSegFileResults, qs)
